@@ -20,21 +20,21 @@ structure Param where
   deriving Repr, Inhabited, DecidableEq
 
 /-- a candidate function of an operator: its name and the two parameters (after the receiver, for methods) -/
-structure Cand where
+structure OpCand where
   fn : String
   l : Param
   r : Param
   deriving Repr, Inhabited, DecidableEq
 
 /-- `conf.OperatorsTable` with the signatures of the named functions looked up in the types table -/
-abbrev OpTable := List (String × List Cand)
+abbrev OpTable := List (String × List OpCand)
 
 /-- `l == argType || (argType.Kind() == reflect.Interface && (l == nil || l.Implements(argType)))` -/
 def Param.fits (p : Param) (t : String) : Bool :=
   t == p.ty || (p.iface && (t == nilTyKey || p.impls.contains t))
 
 /-- `conf.FindSuitableOperatorOverload`: the first candidate both of whose parameters fit -/
-def findOverload : List Cand → String → String → Option String
+def findOverload : List OpCand → String → String → Option String
   | [], _, _ => none
   | c :: cs, tl, tr => if c.l.fits tl && c.r.fits tr then some c.fn else findOverload cs tl tr
 
@@ -56,7 +56,7 @@ def patchExit (ops : OpTable) (tyOf : Node → String) : Node → Node
 def opPatcher (ops : OpTable) (tyOf : Node → String) : Visitor Unit := Visitor.onExit (patchExit ops tyOf)
 
 /-- `compiler.PatchOperators` over the walker with slot table `tbl` (`none`: the walk panicked) -/
-def patchOperators (tbl : Table) (ops : OpTable) (tyOf : Node → String) (n : Node) : Option Node :=
+def patchOperators (tbl : WalkTable) (ops : OpTable) (tyOf : Node → String) (n : Node) : Option Node :=
   if ops.isEmpty then some n
   else match walk tbl (opPatcher ops tyOf) (n.height + 1) n () with
     | some (n', _) => some n'
@@ -118,14 +118,13 @@ inductive CheckRes where
   | ok
   | missing (fn op : String)        -- "function %s for %s operator does not exist in environment"
   | badSignature (fn op : String)   -- "function %s for %s operator does not have a correct signature"
-  | panic (fn op : String)          -- nil `reflect.Type` dereferenced
   deriving Repr, Inhabited, DecidableEq
 
 def checkFn (types : List (String × FnTag)) (op fn : String) : CheckRes :=
   match types.lookup fn with
   | none => .missing fn op
   | some t =>
-    if !t.hasType then .panic fn op
+    if !t.hasType then .missing fn op        -- `fnType.Type == nil` (ambiguous name, nil map value)
     else if !t.isFunc then .missing fn op
     else if t.numIn != (if t.method then 3 else 2) || t.numOut != 1 then .badSignature fn op
     else .ok
